@@ -6,8 +6,12 @@
 package bscript
 
 //@ func bscript.DecodeParts
+//@   bytes token
 //@   ensures[decode_nonempty] (=> (and (= err nil) (> (len b0) 0)) (>= (len result) 1))
+//@   ensures[C15.decode_first_push] (=> (and (= err nil) (>= (len b0) 1) (<= 1 (bat (old (bytes b0)) 0)) (<= (bat (old (bytes b0)) 0) 75)) (and (>= (len result) 1) (= (bytes (at result 0)) (bsub (old (bytes b0)) 1 (+ 1 (bat (old (bytes b0)) 0))))))
 //@   loop 0 invariant (or (>= (len r) 1) (= (len b) (len b0)))
+//@   loop 0 invariant (and (= (arr b) (arr b0)) (>= (off b) (off b0)))
+//@   loop 0 invariant (or (and (= (len r) 0) (= b b0)) (and (>= (len r) 1) (=> (and (<= 1 (bat (old (bytes b0)) 0)) (<= (bat (old (bytes b0)) 0) 75)) (and (= (arr (at r 0)) (arr b0)) (= (off (at r 0)) (+ (off b0) 1)) (= (len (at r 0)) (bat (old (bytes b0)) 0)) (>= (off b) (+ (off (at r 0)) (len (at r 0)))) (= (bytes (at r 0)) (bsub (old (bytes b0)) 1 (+ 1 (bat (old (bytes b0)) 0))))))))
 //@   loop 0 decreases (len b)
 
 //@ func bscript.isP2PKHInscriptionHelper
@@ -113,6 +117,7 @@ package bscript
 //@   ensures[C15.append_push] (=> (= err nil) (= (bytes s) (bcat (old (bytes s)) (bcat (spec.pd (len d)) (old (bytes d))))))
 //@ func bscript.(*Script).AppendOpcodes
 //@   bytes token
+//@   opt index-fn 1
 //@   opt writes s
 //@   assigns (cell s) (elems s)
 //@   opt forall-patterns 1
@@ -121,3 +126,34 @@ package bscript
 //@ func bscript.NewP2PKHFromAddress
 //@   bytes token
 //@   ensures[C15.p2pkh_from_address] (and (= (= err nil) (spec.addr_ok (b58dec addr))) (=> (= err nil) (and (not (nil? r0)) (= (bytes r0) (spec.p2pkh_script (bsub (b58dec addr) 1 21))))))
+//@ func bscript.NewAddressFromPublicKey
+//@   bytes token
+//@   fresh r0
+//@   requires (not (nil? pubKey))
+//@   ensures[C15.addr_from_key] (and (= err nil) (not (nil? r0)) (= (. r0 AddressString) (b58enc (spec.addr_payload (ite mainnet 0 111) (bhash160 (pkser pubKey))))) (= (. r0 PublicKeyHash) (bhex (bhash160 (pkser pubKey)))))
+
+// ---- ValidateAddress' own decoder (C15) ----
+//@ func bscript.(*a25).set58
+//@   opt writes a
+//@   define (=> (and (= (old (select (H "T:uint8" Int) (elem a 0))) 0) (= (old (select (H "T:uint8" Int) (elem a 1))) 0) (= (old (select (H "T:uint8" Int) (elem a 2))) 0) (= (old (select (H "T:uint8" Int) (elem a 3))) 0) (= (old (select (H "T:uint8" Int) (elem a 4))) 0) (= (old (select (H "T:uint8" Int) (elem a 5))) 0) (= (old (select (H "T:uint8" Int) (elem a 6))) 0) (= (old (select (H "T:uint8" Int) (elem a 7))) 0) (= (old (select (H "T:uint8" Int) (elem a 8))) 0) (= (old (select (H "T:uint8" Int) (elem a 9))) 0) (= (old (select (H "T:uint8" Int) (elem a 10))) 0) (= (old (select (H "T:uint8" Int) (elem a 11))) 0) (= (old (select (H "T:uint8" Int) (elem a 12))) 0) (= (old (select (H "T:uint8" Int) (elem a 13))) 0) (= (old (select (H "T:uint8" Int) (elem a 14))) 0) (= (old (select (H "T:uint8" Int) (elem a 15))) 0) (= (old (select (H "T:uint8" Int) (elem a 16))) 0) (= (old (select (H "T:uint8" Int) (elem a 17))) 0) (= (old (select (H "T:uint8" Int) (elem a 18))) 0) (= (old (select (H "T:uint8" Int) (elem a 19))) 0) (= (old (select (H "T:uint8" Int) (elem a 20))) 0) (= (old (select (H "T:uint8" Int) (elem a 21))) 0) (= (old (select (H "T:uint8" Int) (elem a 22))) 0) (= (old (select (H "T:uint8" Int) (elem a 23))) 0) (= (old (select (H "T:uint8" Int) (elem a 24))) 0)) (and (= (= err nil) (a25ok (bytes s))) (=> (= err nil) (and (= (select (H "T:uint8" Int) (elem a 0)) (bat (a25dec (bytes s)) 0)) (= (select (H "T:uint8" Int) (elem a 1)) (bat (a25dec (bytes s)) 1)) (= (select (H "T:uint8" Int) (elem a 2)) (bat (a25dec (bytes s)) 2)) (= (select (H "T:uint8" Int) (elem a 3)) (bat (a25dec (bytes s)) 3)) (= (select (H "T:uint8" Int) (elem a 4)) (bat (a25dec (bytes s)) 4)) (= (select (H "T:uint8" Int) (elem a 5)) (bat (a25dec (bytes s)) 5)) (= (select (H "T:uint8" Int) (elem a 6)) (bat (a25dec (bytes s)) 6)) (= (select (H "T:uint8" Int) (elem a 7)) (bat (a25dec (bytes s)) 7)) (= (select (H "T:uint8" Int) (elem a 8)) (bat (a25dec (bytes s)) 8)) (= (select (H "T:uint8" Int) (elem a 9)) (bat (a25dec (bytes s)) 9)) (= (select (H "T:uint8" Int) (elem a 10)) (bat (a25dec (bytes s)) 10)) (= (select (H "T:uint8" Int) (elem a 11)) (bat (a25dec (bytes s)) 11)) (= (select (H "T:uint8" Int) (elem a 12)) (bat (a25dec (bytes s)) 12)) (= (select (H "T:uint8" Int) (elem a 13)) (bat (a25dec (bytes s)) 13)) (= (select (H "T:uint8" Int) (elem a 14)) (bat (a25dec (bytes s)) 14)) (= (select (H "T:uint8" Int) (elem a 15)) (bat (a25dec (bytes s)) 15)) (= (select (H "T:uint8" Int) (elem a 16)) (bat (a25dec (bytes s)) 16)) (= (select (H "T:uint8" Int) (elem a 17)) (bat (a25dec (bytes s)) 17)) (= (select (H "T:uint8" Int) (elem a 18)) (bat (a25dec (bytes s)) 18)) (= (select (H "T:uint8" Int) (elem a 19)) (bat (a25dec (bytes s)) 19)) (= (select (H "T:uint8" Int) (elem a 20)) (bat (a25dec (bytes s)) 20)) (= (select (H "T:uint8" Int) (elem a 21)) (bat (a25dec (bytes s)) 21)) (= (select (H "T:uint8" Int) (elem a 22)) (bat (a25dec (bytes s)) 22)) (= (select (H "T:uint8" Int) (elem a 23)) (bat (a25dec (bytes s)) 23)) (= (select (H "T:uint8" Int) (elem a 24)) (bat (a25dec (bytes s)) 24))))))
+//@ func bscript.(*a25).embeddedChecksum
+//@   bytes token
+//@   opt array-expand 25
+//@   pure
+//@   requires (not (nil? a))
+//@   requires (and (<= 0 (select (H "T:uint8" Int) (elem a 21))) (<= (select (H "T:uint8" Int) (elem a 21)) 255) (<= 0 (select (H "T:uint8" Int) (elem a 22))) (<= (select (H "T:uint8" Int) (elem a 22)) 255) (<= 0 (select (H "T:uint8" Int) (elem a 23))) (<= (select (H "T:uint8" Int) (elem a 23)) 255) (<= 0 (select (H "T:uint8" Int) (elem a 24))) (<= (select (H "T:uint8" Int) (elem a 24)) 255))
+//@   ensures[C15.embedded] (and (= (select result 0) (select (H "T:uint8" Int) (elem a 21))) (= (select result 1) (select (H "T:uint8" Int) (elem a 22))) (= (select result 2) (select (H "T:uint8" Int) (elem a 23))) (= (select result 3) (select (H "T:uint8" Int) (elem a 24))))
+//@ func bscript.(*a25).computeChecksum
+//@   bytes token
+//@   opt array-expand 25
+//@   pure
+//@   requires (not (nil? a))
+//@   ensures[C15.computed] (and (= (select result 0) (bat (bsha256d (spec.a25head a)) 0)) (= (select result 1) (bat (bsha256d (spec.a25head a)) 1)) (= (select result 2) (bat (bsha256d (spec.a25head a)) 2)) (= (select result 3) (bat (bsha256d (spec.a25head a)) 3)))
+//@ func bscript.validA58
+//@   bytes token
+//@   ensures[C15.valid_only_if] (=> r0 (and (a25ok (bytes a58)) (spec.a25_valid (a25dec (bytes a58)))))
+//@   ensures[C15.valid_err] (= r0 (= r1 nil))
+// recovery of the key hash from a P2PKH script (C15): through the first-push contract of DecodeParts
+//@ func bscript.(*Script).PublicKeyHash
+//@   bytes token
+//@   ensures[C15.pkh_recovered] (=> (and (not (nil? s)) (= err nil) (= (blen (old (bytes s))) 25) (= (bat (old (bytes s)) 0) 118) (= (bat (old (bytes s)) 1) 169) (= (bat (old (bytes s)) 2) 20)) (= (bytes r0) (bsub (old (bytes s)) 3 23)))
